@@ -62,8 +62,8 @@ Proof. exact default_prefix_spelling_independent. Qed.
 Print Assumptions C17_default_prefix_spelling_independent.
 
 (* pymain2coq: the control flow of main() as regenerated from src/cminx/__init__.py on every run
-   (argument parsing, stacking of the sources, template validation, the exclude-filter loop, the
-   loop over the inputs) equals the specification model_main, for every environment, document
+   (argument parsing, stacking of the sources, template validation, the rst.headers check, the
+   exclude-filter loop, the loop over the inputs) equals the specification model_main, for every environment, document
    function and argument vector. *)
 Theorem C17_main_matches_source :
   forall env document toks, py_run (main env document toks) = model_main env document toks.
@@ -74,6 +74,7 @@ Theorem C17_inputs_documented_in_order : forall env document toks p stack st,
   parse_args cli_table toks = Some p ->
   consulted env p = Some stack ->
   settings_of (env_cwd env) stack template = Some st ->
+  headers_ok stack = true ->
   forallb (excl_src_ok excl_key) stack = true ->
   py_run (main env document toks)
   = finish (run_inputs (map (fun f => document f (accepted_object stack st)) (p_positional p))).
@@ -84,6 +85,7 @@ Theorem C17_inputs_documented_concat : forall env document toks p stack st,
   parse_args cli_table toks = Some p ->
   consulted env p = Some stack ->
   settings_of (env_cwd env) stack template = Some st ->
+  headers_ok stack = true ->
   forallb (excl_src_ok excl_key) stack = true ->
   forallb run_ok (map (fun f => document f (accepted_object stack st)) (p_positional p)) = true ->
   py_run (main env document toks)
